@@ -19,6 +19,19 @@ package main
 //  "unregister-zero"  (2 genesis deputies D0, D1 with 0 votes)
 //   h1  founder -> D1 100 LEMO (gas money) ; h2  D1 un-registers (votes 0 -> 0: no VotesLog in the block)
 //   h6  (snapshot) empty                          deputies still contain D1
+//  "three-candidates"  (1 genesis deputy; MORE listed candidates than deputies: the cut list[:DeputyCount])
+//   h1 fund U1, U2, V ; h2 U1 registers 5,000,000 (50,000), U2 registers 6,000,000 (60,000), V votes D0 (4)
+//   top(h5) = [U2 60000, U1 50000, D0 4]          deputies = [U2 60000 r0, U1 50000 r1]
+//  "fork"  (2 genesis deputies, nothing becomes stable; the snapshot block's parent is NOT the current block)
+//   h2 U1 registers 5,000,000, U2 6,000,000 ; h5a (on h4) empty, inserted first = current block
+//   h5b (on h4) U1 adds 2,000,000 deposit (70,000 votes) ; h6 is built on h5b
+//   top(h5a) = [U2 60000, U1 50000, ..]  top(h5b) = [U1 70000, U2 60000, ..]   deputies = [U1 70000 r0, U2 60000 r1]
+//
+// What is printed as the implementation's answer of the model op `seal` are the DeputyNodes of the block the
+// validating engine STORED: InsertBlock re-seals the block with the real DPoVP.LoadTopCandidates and stores
+// that.  The block handed to InsertBlock is built by the toolkit's miner path (its candidate loader is a copy);
+// it must be accepted (c10/snapshot-block-rejected), the stored list must equal it, and a direct call of the
+// real DPoVP.LoadTopCandidates(parent) must name the same addresses and ranks.
 
 import (
 	"fmt"
@@ -32,17 +45,19 @@ import (
 	"github.com/LemoFoundationLtd/lemochain-core/chain/params"
 	"github.com/LemoFoundationLtd/lemochain-core/chain/types"
 	"github.com/LemoFoundationLtd/lemochain-core/common"
+	"github.com/LemoFoundationLtd/lemochain-core/store"
 )
 
 type c10EngineResult struct {
-	ParentTop          string // GetCandidatesTop(parent of snapshot) as "label:votes ..."
-	ParentVotes        string // votes of those candidates read from the parent's account view
-	Deputies           string // block.DeputyNodes of the snapshot block "n:votes:rank ..." (model numbering)
-	SealOp             string // the model op line
-	Insert             string // result of InsertBlock(snapshot block) on the validating node
-	Loadable           string // NewTermRecord(snapshot height, block.DeputyNodes): "ok" | "panic ErrXxx"
-	Restart            string // reopening the node that stored the snapshot block
-	UnregisteredDeputy string // non-empty when a deputy of the snapshot block is not a registered candidate
+	ParentTop          string   // GetCandidatesTop(parent of snapshot) as "label:votes ..."
+	ParentVotes        string   // votes of those candidates read from the parent's account view
+	Deputies           string   // DeputyNodes of the snapshot block the validating engine STORED "n:votes:rank ..."
+	SealOp             string   // the model op line
+	Insert             string   // result of InsertBlock(snapshot block) on the validating node
+	Loadable           string   // NewTermRecord(snapshot height, those DeputyNodes): "ok" | "panic ErrXxx"
+	Restart            string   // reopening the node that stored the snapshot block
+	UnregisteredDeputy string   // non-empty when a deputy of the snapshot block is not a registered candidate
+	Problems           []string // "signature|detail": rejected snapshot block, stored/direct list differs, literal expectation failed
 	Log                []string
 }
 
@@ -72,15 +87,86 @@ func c10TermPanic(f func()) (out string) {
 	return "ok"
 }
 
-func c10EngineScenario(variant string) (res c10EngineResult) {
+func c10ShowDeputies(ds types.DeputyNodes, num func(common.Address) int) string {
+	if len(ds) == 0 {
+		return "-"
+	}
+	var ss []string
+	for _, d := range ds {
+		ss = append(ss, fmt.Sprintf("%d:%s:%d", num(d.MinerAddress), d.Votes, d.Rank))
+	}
+	return strings.Join(ss, " ")
+}
+
+// c10SnapshotObserve: what the REAL engine made of the snapshot block `blk` (built by the toolkit's miner path
+// and already handed to n.Insert with result `ins`).  Returns the deputies of the stored block (the output of
+// the real RunBlock -> Seal -> DPoVP.LoadTopCandidates), or "rejected", and the problems found.
+func c10SnapshotObserve(n *Node, blk *types.Block, direct string, ins string, num func(common.Address) int) (deps string, stored types.DeputyNodes, problems []string) {
+	built := c10ShowDeputies(blk.DeputyNodes, num)
+	var sb *types.Block
+	Safe(func() string {
+		b, err := n.DB.GetBlockByHash(blk.Hash())
+		if err == nil {
+			sb = b
+		}
+		return ""
+	})
+	if sb == nil || (ins != "<nil>" && ins != "panic") {
+		problems = append(problems, fmt.Sprintf("c10/snapshot-block-rejected|the validating engine does not accept the snapshot block whose deputies are %s (the first DeputyCount entries of its parent's published list): InsertBlock = %s, stored = %v", built, ins, sb != nil))
+	}
+	deps = "rejected"
+	if sb != nil {
+		stored = sb.DeputyNodes
+		deps = c10ShowDeputies(sb.DeputyNodes, num)
+		if deps != built {
+			problems = append(problems, fmt.Sprintf("c10/snapshot-deputies-differ/stored-block|stored block carries %s, the block handed to InsertBlock %s", deps, built))
+		}
+	}
+	if direct != "" {
+		var want []string
+		for _, d := range blk.DeputyNodes {
+			want = append(want, fmt.Sprintf("%d:r%d", num(d.MinerAddress), d.Rank))
+		}
+		if direct != strings.Join(want, " ") {
+			problems = append(problems, fmt.Sprintf("c10/snapshot-deputies-differ/direct-call|DPoVP.LoadTopCandidates(parent) names [%s], the first DeputyCount entries of the parent's published list are [%s]", direct, strings.Join(want, " ")))
+		}
+	}
+	return
+}
+
+// c10DirectLoader calls the real DPoVP.LoadTopCandidates(parentHash) of node n.  To be called while the parent is
+// still held by the store (before the snapshot block is inserted: with one deputy the snapshot block becomes the
+// last confirmed block at once and the parent's list is gone).  The votes come from whatever the shared account
+// manager holds at that moment, so only addresses and ranks are reported.  The next RunBlock resets the manager.
+func c10DirectLoader(n *Node, parentHash common.Hash, num func(common.Address) int) string {
+	out, msg := SafeMsg(func() string {
+		var ss []string
+		for _, d := range n.BC.VerifEngine().LoadTopCandidates(parentHash) {
+			ss = append(ss, fmt.Sprintf("%d:r%d", num(d.MinerAddress), d.Rank))
+		}
+		if len(ss) == 0 {
+			return "-"
+		}
+		return strings.Join(ss, " ")
+	})
+	if msg != "" {
+		return "panic " + msg
+	}
+	return out
+}
+
+func c10EngineScenario(c *Ctx, variant string) (res c10EngineResult) {
+	site := "engine-scenario-" + variant
+	defer c10Guard(c, "engine scenario "+variant, &site, func() []string { return append([]string{}, res.Log...) })
 	oldT, oldI := params.TermDuration, params.InterimDuration
 	params.TermDuration, params.InterimDuration = 6, 2
 	defer func() { params.TermDuration, params.InterimDuration = oldT, oldI }()
 	const deputyCount = 2
+	store.VerifSetMaxCandidateCount(20)
 
 	now := uint32(time.Now().Unix())
 	nGenesis := 1
-	if variant == "unregister-zero" {
+	if variant == "unregister-zero" || variant == "fork" {
 		nGenesis = 2
 	}
 	w := NewWorld(nGenesis, now-500000, 10000)
@@ -98,8 +184,8 @@ func c10EngineScenario(variant string) (res c10EngineResult) {
 	if nGenesis > 1 {
 		d1 = keyAddr(w.DeputyKeys[1])
 	}
-	u1k, vk := detKey("c10-u1"), detKey("c10-v")
-	u1, v := keyAddr(u1k), keyAddr(vk)
+	u1k, u2k, vk := detKey("c10-u1"), detKey("c10-u2"), detKey("c10-v")
+	u1, u2, v := keyAddr(u1k), keyAddr(u2k), keyAddr(vk)
 	num := func(x common.Address) int { // numbering used in the model op
 		switch x {
 		case d0:
@@ -108,16 +194,46 @@ func c10EngineScenario(variant string) (res c10EngineResult) {
 			return 2
 		case u1:
 			return 3
+		case u2:
+			return 4
 		}
 		return 9
 	}
-	label := func(x common.Address) string { return map[int]string{1: "D0", 2: "D1", 3: "U1", 9: "?"}[num(x)] }
+	label := func(x common.Address) string {
+		return map[int]string{1: "D0", 2: "D1", 3: "U1", 4: "U2", 9: "?"}[num(x)]
+	}
 	logf := func(f string, args ...interface{}) { res.Log = append(res.Log, fmt.Sprintf(f, args...)) }
+	problem := func(sig, detail string) { res.Problems = append(res.Problems, sig+"|"+detail) }
+
+	// by-construction expectations (file header): parent's list, post-state votes, deputies
+	genesisPair := "1:0 2:0"
+	if strings.Compare(string(d1[:]), string(d0[:])) < 0 {
+		genesisPair = "2:0 1:0"
+	}
+	wantTop := map[string]string{
+		"quiet": "3:50000 1:4", "transfer": "3:50000 1:4", "unregister-zero": genesisPair,
+		"three-candidates": "4:60000 3:50000 1:4", "fork": "3:70000 4:60000 " + genesisPair,
+	}[variant]
+	wantPost := map[string]string{
+		"quiet": "3:50000 1:4", "transfer": "3:50000 1:100004", "unregister-zero": genesisPair,
+		"three-candidates": "4:60000 3:50000 1:4", "fork": "3:70000 4:60000 " + genesisPair,
+	}[variant]
+	wantDeps := map[string]string{
+		"quiet": "3:50000:0 1:4:1", "transfer": "3:50000:0 1:100004:1",
+		"unregister-zero":  map[string]string{"1:0 2:0": "1:0:0 2:0:1", "2:0 1:0": "2:0:0 1:0:1"}[genesisPair],
+		"three-candidates": "4:60000:0 3:50000:1", "fork": "3:70000:0 4:60000:1",
+	}[variant]
 
 	parent := a.BC.CurrentBlock()
 	t := parent.Time() + 1
 	var topToks []string
 	var topAddrs []common.Address
+	insertBoth := func(blk *types.Block) (ra, ma, rb, mb string) {
+		// the miner's own node stores it too (a panic there is the same finding)
+		ra, ma = SafeMsg(func() string { return fmt.Sprint(a.Insert(CloneBlock(blk))) })
+		rb, mb = SafeMsg(func() string { return fmt.Sprint(b.Insert(CloneBlock(blk))) })
+		return
+	}
 	for h := uint32(1); h <= 6; h++ {
 		var txs types.Transactions
 		opt := func(m string) TxOpt { return TxOpt{Exp: uint64(t) + 100, Msg: m} }
@@ -126,25 +242,65 @@ func c10EngineScenario(variant string) (res c10EngineResult) {
 			txs = append(txs, txTransfer(w.FounderKey, d1, c10Lemo(100), opt("gas-d1")))
 		case variant == "unregister-zero" && h == 2:
 			txs = append(txs, txRegister(w.DeputyKeys[1], nil, w.DeputyKeys[1], true, nil, opt("unreg-d1")))
-		case variant != "unregister-zero" && h == 1:
+		case variant == "unregister-zero":
+		case (variant == "three-candidates" || variant == "fork") && h == 1:
+			txs = append(txs, txTransfer(w.FounderKey, u1, c10Lemo(8000000), opt("fund-u1")))
+			txs = append(txs, txTransfer(w.FounderKey, u2, c10Lemo(7000000), opt("fund-u2")))
+			txs = append(txs, txTransfer(w.FounderKey, v, c10Lemo(1000), opt("fund-v")))
+		case (variant == "three-candidates" || variant == "fork") && h == 2:
+			txs = append(txs, txRegister(u1k, c10Lemo(5000000), detKey("c10-u1-node"), false, nil, opt("reg-u1")))
+			txs = append(txs, txRegister(u2k, c10Lemo(6000000), detKey("c10-u2-node"), false, nil, opt("reg-u2")))
+			if variant == "three-candidates" {
+				txs = append(txs, txVote(vk, d0, opt("vote-d0")))
+			}
+		case variant == "three-candidates" || variant == "fork":
+		case h == 1:
 			txs = append(txs, txTransfer(w.FounderKey, u1, c10Lemo(6000000), opt("fund-u1")))
 			txs = append(txs, txTransfer(w.FounderKey, v, c10Lemo(1000), opt("fund-v")))
-		case variant != "unregister-zero" && h == 2:
+		case h == 2:
 			txs = append(txs, txRegister(u1k, c10Lemo(5000000), detKey("c10-u1-node"), false, nil, opt("reg-u1")))
 			txs = append(txs, txVote(vk, d0, opt("vote-d0")))
 		case variant == "transfer" && h == 6:
 			txs = append(txs, txTransfer(w.FounderKey, v, c10Lemo(20000000), opt("fund-v-again")))
 		}
+		if variant == "fork" && h == 5 {
+			// sibling 5a: empty, inserted first (it is the current block when 5b and 6 arrive)
+			blkA, _, err := a.Build(parent, t, nil, nil)
+			if err != nil {
+				logf("build h5a: %v", err)
+				res.Insert = "build-error"
+				return
+			}
+			ra, _, rb, _ := insertBoth(blkA)
+			logf("h5a A=%s B=%s", ra, rb)
+			if ra != "<nil>" || rb != "<nil>" {
+				res.Insert = "setup-insert-failed"
+				return
+			}
+			t += 10
+			txs = append(txs, txRegister(u1k, c10Lemo(2000000), detKey("c10-u1-node"), false, nil, TxOpt{Exp: uint64(t) + 100, Msg: "deposit-u1"}))
+		}
 		if h == 6 {
 			var ps, pv []string
 			am := account.NewManager(parent.Hash(), a.DB)
-			for _, c := range a.DB.GetCandidatesTop(parent.Hash()) {
-				ps = append(ps, fmt.Sprintf("%s:%s", label(c.GetAddress()), c.GetTotal()))
-				pv = append(pv, fmt.Sprintf("%s:%s", label(c.GetAddress()), am.GetAccount(c.GetAddress()).GetVotes()))
-				topToks = append(topToks, fmt.Sprintf("%d:%s", num(c.GetAddress()), c.GetTotal()))
-				topAddrs = append(topAddrs, c.GetAddress())
+			for _, cd := range a.DB.GetCandidatesTop(parent.Hash()) {
+				ps = append(ps, fmt.Sprintf("%s:%s", label(cd.GetAddress()), cd.GetTotal()))
+				pv = append(pv, fmt.Sprintf("%s:%s", label(cd.GetAddress()), am.GetAccount(cd.GetAddress()).GetVotes()))
+				topToks = append(topToks, fmt.Sprintf("%d:%s", num(cd.GetAddress()), cd.GetTotal()))
+				topAddrs = append(topAddrs, cd.GetAddress())
 			}
 			res.ParentTop, res.ParentVotes = strings.Join(ps, " "), strings.Join(pv, " ")
+			if got := strings.Join(topToks, " "); got != wantTop {
+				problem("c10/scenario-expectation-failed/"+variant, fmt.Sprintf("published list of the snapshot block's parent is [%s], by construction it is [%s]", got, wantTop))
+			}
+			if variant == "fork" {
+				if cur := b.BC.CurrentBlock(); cur.Hash() == parent.Hash() {
+					logf("note: the snapshot parent IS the current block of the validating node")
+					c.Count("engine:fork-scenario-parent-is-current")
+				} else {
+					c.Count("engine:fork-scenario-parent-is-not-current")
+				}
+			}
 		}
 		blk, invalid, err := a.Build(parent, t, txs, nil)
 		if err != nil {
@@ -157,24 +313,27 @@ func c10EngineScenario(variant string) (res c10EngineResult) {
 			res.Insert = "tx-rejected"
 			return
 		}
-		// the miner's own node stores it too (a panic there is the same finding)
-		ra, ma := SafeMsg(func() string { return fmt.Sprint(a.Insert(CloneBlock(blk))) })
-		rb, mb := SafeMsg(func() string { return fmt.Sprint(b.Insert(CloneBlock(blk))) })
+		direct := ""
+		if h == 6 {
+			direct = c10DirectLoader(b, parent.Hash(), num)
+		}
+		ra, ma, rb, mb := insertBoth(blk)
 		logf("h%d txs=%d A=%s %s B=%s %s stableB=%d", h, len(blk.Txs), ra, ma, rb, mb, b.BC.StableBlock().Height())
 		if h == 6 {
 			res.Insert = rb
 			if mb != "" {
 				res.Insert = rb + "(" + mb + ")"
 			}
-			var ds []string
-			for _, d := range blk.DeputyNodes {
-				ds = append(ds, fmt.Sprintf("%d:%s:%d", num(d.MinerAddress), d.Votes, d.Rank))
-			}
-			res.Deputies = "-"
-			if len(ds) > 0 {
-				res.Deputies = strings.Join(ds, " ")
+			deps, stored, probs := c10SnapshotObserve(b, blk, direct, rb, num)
+			res.Deputies = deps
+			res.Problems = append(res.Problems, probs...)
+			if deps != wantDeps {
+				problem("c10/scenario-expectation-failed/"+variant, fmt.Sprintf("deputies of the stored snapshot block are [%s], by construction [%s]", deps, wantDeps))
 			}
 			res.Loadable = c10TermPanic(func() { deputynode.NewTermRecord(blk.Height(), CloneBlock(blk).DeputyNodes) })
+			if stored != nil {
+				res.Loadable = c10TermPanic(func() { deputynode.NewTermRecord(blk.Height(), stored) })
+			}
 			// post-state of the snapshot block, read independently of block.DeputyNodes
 			var post []string
 			ok := Safe(func() string {
@@ -193,9 +352,14 @@ func c10EngineScenario(variant string) (res c10EngineResult) {
 				return "ok"
 			})
 			if ok == "ok" {
+				if got := strings.Join(post, " "); got != wantPost {
+					problem("c10/scenario-expectation-failed/"+variant, fmt.Sprintf("votes in the snapshot block's state are [%s], by construction [%s]", got, wantPost))
+				}
 				res.SealOp = fmt.Sprintf("seal %d %d %d %s / %s", deputyCount, params.TermDuration, blk.Height(), strings.Join(topToks, " "), strings.Join(post, " "))
 			} else {
+				// the block was not stored: the op still goes out, with the by-construction votes
 				logf("post-state of the snapshot block is not readable")
+				res.SealOp = fmt.Sprintf("seal %d %d %d %s / %s", deputyCount, params.TermDuration, blk.Height(), strings.Join(topToks, " "), wantPost)
 			}
 		} else if ra != "<nil>" || rb != "<nil>" {
 			res.Insert = "setup-insert-failed"
